@@ -88,7 +88,7 @@ func init() {
 func c19Text(seed uint64) (string, error) {
 	r := rand.New(rand.NewPCG(seed, 17))
 	d, err := gen.Pipeline(r, gen.PipeOpts{Str: gen.StringOpts{Tricky: true}, Refs: []string{"$X", "${Y}", "$$X", "${UNSET:-d}"}, UniqueStrings: true, NoTime: true, SmallInts: true,
-		BigMaps: seed%3 == 0, Unknown: seed%3 == 1, Sharing: seed%5 == 3, MaxSteps: 5}.NoSweep())
+		BigMaps: seed%3 == 0, Unknown: seed%3 == 1, Sharing: seed%5 == 3, MaxSteps: 5, Coincide: true}.NoSweep())
 	if err != nil {
 		return "", err
 	}
@@ -377,6 +377,10 @@ func c19BuildOne(r *rand.Rand, kp *keys.Pair, observe bool) (*c19Shared, error) 
 	allCommandSteps(s.pipe.Steps, func(_ string, st *pipeline.CommandStep) {
 		if nth++; nth%2 == 0 && st.Signature != nil {
 			slices.Reverse(st.Signature.SignedFields)
+		} else if nth%3 == 0 && st.Signature != nil && len(st.Signature.SignedFields) > 0 {
+			// ... or repeat a name (adjacent): still the same set of fields
+			f := st.Signature.SignedFields
+			st.Signature.SignedFields = append([]string{f[0], f[0]}, f[1:]...)
 		}
 	})
 	if observe {
